@@ -271,6 +271,11 @@ pub struct History {
     /// how many times the list of calls is repeated (history length = calls.len() * repeat)
     pub repeat: u8,
     pub calls: Vec<Abandoned>,
+    /// epilogue: calls whose handlers never end (or take 30 s) are started, abandoned, and in the
+    /// same instant the connection is ended, so the abandonment reaches the callee only as the
+    /// loss of the connection: 0 the caller disconnects, 1 the callee disconnects, 2 the caller shuts down
+    #[serde(default)]
+    pub ending: Option<u8>,
 }
 
 pub fn history(h: &History, obs: &mut Obs) -> Result<(), Fail> {
@@ -354,6 +359,30 @@ pub fn history(h: &History, obs: &mut Obs) -> Result<(), Fail> {
         let took = sim.fabric.now_ms() - t0;
         vensure!(took <= 8 * h.link_delay_ms.max(1) as u64 + 50, "c12:fresh-rpc-slow", "fresh RPCs took {took} ms after {total} abandoned calls");
         vensure!(a.net.peers().contains(&b.id()), "c12:connection-lost", "connection lost after abandoned calls");
+        if let Some(how) = h.ending {
+            let starts_before = b.rec.snapshot().iter().filter(|r| r.ev == Ev::Start).count();
+            let mut futs = Vec::new();
+            for j in 0..4u64 {
+                let ctl = Ctl { id: 2_000_000 + j, delay_ms: if j % 2 == 0 { 0 } else { 30_000 }, status_idx: 0, resp_len: 10, resp_hdrs: 0, mode: if j % 2 == 0 { 1 } else { 0 } };
+                futs.push(a.net.rpc(b.id(), ctl_request("/ending", &[], &ctl, 40)));
+            }
+            // the calls are abandoned when the timeout drops them; the next statement runs without yielding
+            let _ = tokio::time::timeout(Duration::from_millis(30 + 4 * h.link_delay_ms as u64), futures::future::join_all(futs)).await;
+            match how % 3 {
+                0 => { let _ = a.net.disconnect(b.id()); }
+                1 => { let _ = b.net.disconnect(a.id()); }
+                _ => { let _ = within(20_000, a.net.shutdown()).await; }
+            }
+            let started = b.rec.snapshot().iter().filter(|r| r.ev == Ev::Start).count() - starts_before;
+            sleep_ms(1_000 + 4 * h.link_delay_ms as u64).await;
+            let log = b.rec.snapshot();
+            let starts = log.iter().filter(|r| r.ev == Ev::Start).count();
+            let ends = log.iter().filter(|r| r.ev != Ev::Start).count();
+            vensure!(starts == ends, "c12:handler-leak", "{started} handlers were running when their calls were abandoned and the connection ended in the same instant ({}); 1 s later {starts} handlers have started and only {ends} have ended (dropped or finished)", ["caller disconnects", "callee disconnects", "caller shuts down"][how as usize % 3]);
+            let live = b.rec.live_clones();
+            vensure!(live <= baseline_clones, "c12:resources-held", "after the connection ended the callee holds {live} service clones; baseline {baseline_clones}");
+            if started > 0 { obs.label("abandoned-by-connection-loss-with-running-handlers"); }
+        }
         sim.health()?;
         check_no_panics("during a history of abandoned RPCs")?;
         obs.evals(total as u64);
@@ -371,13 +400,13 @@ impl Part for Histories {
     type Case = History;
     fn name(&self) -> &'static str { "abandon-history" }
     fn rule(&self) -> &'static str {
-        "histories of 20-600 abandoned RPCs on one connection (stream limit 2-16 or the default 100; abandon after 0-60 ms; request 10 B-300 KiB; handlers 0-10 s or never; callee service optionally behind ConcurrencyLimit with a long non-abandoned call occupying it), interleaved with sibling calls that are not abandoned; oracle: siblings and the occupier return their own correct responses, started = ended handlers after quiescence, min(limit,20) fresh RPCs then complete concurrently in normal time, connection stays; non-trivial = history longer than the concurrent-stream limit; distinct by history"
+        "histories of 20-600 abandoned RPCs on one connection (stream limit 2-16 or the default 100; abandon after 0-60 ms; request 10 B-300 KiB; handlers 0-10 s or never; callee service optionally behind ConcurrencyLimit with a long non-abandoned call occupying it), interleaved with sibling calls that are not abandoned; oracle: siblings and the occupier return their own correct responses, started = ended handlers after quiescence, min(limit,20) fresh RPCs then complete concurrently in normal time, connection stays; optional epilogue: four calls with never-ending or 30 s handlers are abandoned and in the same instant the connection is ended (caller disconnects / callee disconnects / caller shuts down), so the abandonment arrives only as connection loss - 1 s later every started handler has ended and the callee holds no per-request state; non-trivial = history longer than the concurrent-stream limit; distinct by history"
     }
     fn strategy(&self, _t: Tier) -> BoxedStrategy<History> {
         let call = (0u16..60, prop_oneof![3 => 10u32..2000, 1 => 2000u32..300_000], prop_oneof![1 => (0u32..20).prop_map(Some), 2 => (20u32..10_000).prop_map(Some), 2 => Just(None)], prop::bool::weighted(0.2))
             .prop_map(|(abandon_after_ms, req_len, handler_ms, with_sibling)| Abandoned { abandon_after_ms, req_len, handler_ms, with_sibling });
-        (prop_oneof![3 => (2u8..17).prop_map(Some), 1 => Just(None)], prop::option::weighted(0.5, 1u8..4), prop::option::weighted(0.6, 500u16..20000), 1u8..15, 1u8..7, prop::collection::vec(call, 10..100))
-            .prop_map(|(stream_limit, concurrency_limit, occupier_ms, link_delay_ms, repeat, calls)| History { stream_limit, concurrency_limit, occupier_ms, link_delay_ms, repeat, calls })
+        (prop_oneof![3 => (2u8..17).prop_map(Some), 1 => Just(None)], prop::option::weighted(0.5, 1u8..4), prop::option::weighted(0.6, 500u16..20000), 1u8..15, 1u8..7, prop::collection::vec(call, 10..100), prop::option::weighted(0.5, 0u8..3))
+            .prop_map(|(stream_limit, concurrency_limit, occupier_ms, link_delay_ms, repeat, calls, ending)| History { stream_limit, concurrency_limit, occupier_ms, link_delay_ms, repeat, calls, ending })
             .boxed()
     }
     fn run(&self, c: &History, obs: &mut Obs) -> Result<(), Fail> { history(c, obs) }
